@@ -290,6 +290,10 @@ function exprForms() {
     ['prefix-named-fields', M.bin('+', M.bin('+', x, M.lit("'/'")), id('xs'))],
     ['prefix-named-fields-reversed', M.bin('+', M.bin('+', id('xs'), M.lit("'/'")), x)],
     ['prefix-named-members', M.bin('+', M.bin('+', M.mem(id('aa'), 'b'), M.lit("'/'")), M.mem(id('aa'), 'bb'))],
+    // a member of a value and the whole value in one expression, in both orders (the whole value depends on every path below it:
+    // a list of primitives joins its items, so a write to one item changes it while the member keeps its value)
+    ['member-then-whole', M.bin('+', M.bin('+', M.mem(id('list'), 'length'), M.lit("'/'")), id('list'))],
+    ['whole-then-member', M.bin('+', M.bin('+', id('list'), M.lit("'/'")), M.mem(id('list'), 'length'))],
   ]
 }
 /** binding positions: (expr) -> nodes */
